@@ -311,23 +311,27 @@ Definition check_stats (cu2 floor2 k2max : F) (n m p : nat) (w : option (seq F))
   else if ~~ close1 e2 floor2 (sb_chi2 o) (svnrm2 (sb_rw o) / dof%:R) then 22%N
   else if ~~ close1 e2 floor2 (sq (sb_rse o)) (sb_chi2 o) then 23%N
   (* conditioning of H^T H estimated from the implementation's covariance: ||G|| ||Cov|| / chi2; beyond k2max the
-     rounding error of any inversion is of the order of the result: not compared (code 1) *)
-  else if sq k2max * sq (sb_chi2 o) < sfro2 G * sfro2 cov then 1%N
+     rounding error of any inversion is of the order of the result: the defining equation, the symmetry and the signs
+     are then not compared (the final code is 1), everything that is a plain function of the reported covariance still is *)
+  else let illc := sq k2max * sq (sb_chi2 o) < sfro2 G * sfro2 cov in
   (* residual of the defining equation, relative to ||G|| ||Cov||, within the forward error bound u * kappa
      of a computed inverse *)
-  else if ~~ (sfro2 (ssub (smul q G cov) (sscale (sb_chi2 o) (sident F q))) * sq (sb_chi2 o)
+  if ~~ illc && ~~ (sfro2 (ssub (smul q G cov) (sscale (sb_chi2 o) (sident F q))) * sq (sb_chi2 o)
               <= e2 * (sfro2 G * sfro2 cov) * Num.max (sq (sb_chi2 o)) (sfro2 G * sfro2 cov)) then 24%N
   (* symmetric up to rounding: the asymmetry of a computed inverse grows with the condition number of H^T H,
      estimated by ||H^T H|| ||Cov|| / chi2 from the covariance just accepted *)
-  else if ~~ (sfro2 (ssub cov (strans q cov)) * sq (sb_chi2 o) <= e2 * (sfro2 G * sfro2 cov) * sfro2 cov) then 25%N
-  else if ~~ all (fun v => 0 <= v) (sdiagv cov) then 26%N
+  else if ~~ illc && ~~ (sfro2 (ssub cov (strans q cov)) * sq (sb_chi2 o) <= e2 * (sfro2 G * sfro2 cov) * sfro2 cov) then 25%N
+  else if ~~ illc && ~~ all (fun v => 0 <= v) (sdiagv cov) then 26%N
   else if ~~ ((sb_lin_var o == take m (sdiagv cov)) && (sb_nl_var o == drop m (sdiagv cov))) then 27%N
+  (* correlation: r_ij^2 = c_ij^2 / (c_ii c_jj) with the sign of c_ij — a scale-free comparison (the covariance scales with
+     the noise level, the correlation does not) *)
   else if ~~ all (fun ij =>
                let cii := nth 0 (sdiagv cov) ij.1 in
                let cjj := nth 0 (sdiagv cov) ij.2 in
                let cij := ent cov ij.1 ij.2 in
                let rij := ent (sb_corr o) ij.1 ij.2 in
-               close1 e2 floor2 (sq rij * cii * cjj) (sq cij) && (0 <= rij * cij) && (sq rij <= 1 + e2))
+               (cii * cjj <= 0) ||
+               (close1 e2 floor2 (sq rij) (sq cij / (cii * cjj)) && (0 <= rij * cij) && (illc || (sq rij <= 1 + e2))))
              [seq (i, j) | i <- iota 0 q, j <- iota 0 q] then 28%N
   else if ~~ all (fun uj =>
                let s2 := svdot uj.2 (lincomb q cov uj.2) in
@@ -336,6 +340,7 @@ Definition check_stats (cu2 floor2 k2max : F) (n m p : nat) (w : option (seq F))
   else if ~~ all (fun b => (size b.2 == n) &&
                all (fun ru => close1 e2 floor2 ru.1 (b.1 * ru.2) && (0 <= ru.1)) (zip b.2 (sb_usigma o)))
              (sb_bands o) then 30%N
+  else if illc then 1%N
   else 0%N.
 (* the band relation alone (used for fits with many samples, where the full statistics check would be slow):
    radius_i = t * sigma_i, sigma_i >= 0; code 0 ok, 30 band, 31 shapes *)
